@@ -530,7 +530,7 @@ SYNTAX_BIN = ('add', 'sub', 'mul', 'truediv', 'floordiv', 'mod', 'pow',
               'gt', 'ge')
 SYNTAX_UN = ('neg', 'pos', 'abs', 'invert')
 
-RECV = ('r2', 'r1', 'r3', 'rn', 'rn2', 'rcl')
+RECV = ('r2', 'r1', 'r3', 'rn', 'rn2', 'rcl', 'rmix')
 OTHER = ('num', 'ugen', 'l2', 'l3', 'lu', 'cl', 'clu3', 'n', 'n2', 'n3', 'clcl')
 
 
@@ -551,6 +551,10 @@ def _recv(kind, rate):
         return CL([a(0), [a(1), [a(2), a(3)]]])
     if kind == 'rcl':
         return CL([CL([a(0), a(1)]), a(2)])
+    if kind == 'rmix':
+        # channels of different rates: each expanded unit must get the rate the
+        # single call on that channel gives, not one rate for the whole list
+        return CL([DC.ar(101), DC.kr(102), DC.ar(103)])
     raise ValueError(kind)
 
 
@@ -718,7 +722,7 @@ CHM_EXCLUDED = {
 MODE_PARAMS = {'clip': ('minmax', 'min', 'max', None),
                'type': ('minmax', 'min', 'max', None)}
 NUM_SHAPES = ('s', 'u', 'l2', 'l3', 'cl', 'lu', 'l1', 'n')
-CHM_RECV = ('r2', 'r1', 'r3', 'rcl', 'rn', 'rn2')
+CHM_RECV = ('r2', 'r1', 'r3', 'rcl', 'rn', 'rn2', 'rmix')
 CHM_NESTED = ('rn', 'rn2')
 
 
@@ -896,7 +900,8 @@ def _chm_worker(job):
                 if tier != 'thorough' and variant == 'grid' \
                         and (recv, rate) not in (('r2', 'kr'), ('r3', 'ar'),
                                                  ('r1', 'kr'), ('rcl', 'kr'),
-                                                 ('rn', 'kr'), ('rn2', 'ar')):
+                                                 ('rn', 'kr'), ('rn2', 'ar'),
+                                                 ('rmix', 'kr')):
                     continue
                 st, what, obs, exp = _chm_case(name, recv, rate, spec)
                 n += 1
